@@ -113,7 +113,9 @@ func c09(c *core.Ctx, r *core.Report) {
 			r.Check(ok, key+"#first-eval-once", an.Pos(c, e.Instr), "the first evaluation runs once on every path that reaches the tick loop, before ticking starts", "the first evaluation is conditional or does not precede the tick loop")
 		}
 		for _, e := range inLoop {
-			sel, idx := an.ArmOf(e.Instr)
+			// the evaluation itself, or the call of the helper that makes it (`rateForTick(rate, due, lag)`: one evaluation
+			// on every path of the helper is what #tick-eval and the pairing rule count)
+			sel, idx := an.ArmOf(e.Root())
 			if sel == nil || idx < 0 {
 				r.Violation(key+"#tick-arm", an.Pos(c, e.Instr), "the in-loop evaluation is not under a select arm: it is not tied to a tick")
 				continue
